@@ -1,0 +1,35 @@
+//go:build verif
+
+package scanner
+
+import (
+	"reflect"
+	"runtime"
+	"strings"
+)
+
+// VerifStepName returns the name of the step function the scanner is in.
+func (s *Scanner) VerifStepName() string { return verifFuncName(s.step) }
+
+// VerifStepStack returns the names of the saved step functions, bottom first.
+func (s *Scanner) VerifStepStack() []string {
+	res := make([]string, 0, len(s.stepStack))
+	for _, f := range s.stepStack {
+		res = append(res, verifFuncName(f))
+	}
+	return res
+}
+
+// VerifEventStackLen returns the number of pending lexeme beginnings.
+func (s *Scanner) VerifEventStackLen() int { return len(s.stack) }
+
+func verifFuncName(f stepFunc) string {
+	if f == nil {
+		return ""
+	}
+	n := runtime.FuncForPC(reflect.ValueOf(f).Pointer()).Name()
+	if i := strings.LastIndexByte(n, '.'); i >= 0 {
+		n = n[i+1:]
+	}
+	return n
+}
